@@ -14,6 +14,7 @@ from tools.translators import gen_c17
 
 PROP = 'C17'
 FINDING = 'F-OPTGUARD-KEYSET'
+FINDING_PATH = 'F-OPTGUARD-MSG-PATH'
 
 MANIFEST = dict(
     technique='Coq proof (list induction over option sets on top of a finite injectivity fact computed by vm_compute over the regenerated '
@@ -222,6 +223,14 @@ def build_plan(facts: dict, rng, tier: str):
         # omit-serialization-support: no support header at all
         oid = S.add(lang, dict(defaults), [], {}, omit=True, kind='omit')
         pairs.append({'sup': None, 'typ': oid, 'kind': 'omit'})
+        # the message branch taken with --embed-auditing-info, with a DSDL path that is hostile to a string literal
+        hid = S.add(lang, dict(defaults), ['--embed-auditing-info'], {}, kind='hostile-path')
+        S.sets[-1]['hostile'] = True
+        pairs.append({'sup': hid, 'typ': hid, 'kind': 'identical-hostile-path'})
+        aid = S.add(lang, dict(defaults), ['--embed-auditing-info', '--target-endianness', 'little'], {}, kind='hostile-path')
+        S.sets[-1]['hostile'] = True
+        S.sets[-1]['intended'] = dict(defaults, target_endianness='little')
+        pairs.append({'sup': hid, 'typ': aid, 'kind': 'single'})
     seen = set()
     out = []
     for p in pairs:
@@ -352,10 +361,10 @@ def gen_values(rng, n: int) -> list:
 
 
 def main(chk: core.Check, replay: typing.Optional[str] = None) -> int:
-    if chk.known_entry(FINDING) is None:   # fragment not merged into known_findings.json yet: read it from known_findings.d
+    if chk.known_entry(FINDING) is None or chk.known_entry(FINDING_PATH) is None:   # fragment not merged into known_findings.json yet
         try:
             with open(os.path.join(core.VERIF, 'known_findings.d', 'C17.json'), encoding='utf-8') as f:
-                chk.known += [e for e in json.load(f)['findings'] if PROP in e['properties']]
+                chk.known += [e for e in json.load(f)['findings'] if PROP in e['properties'] and chk.known_entry(e['id']) is None]
         except (OSError, ValueError, KeyError):
             pass
     # 1. proof obligations against the regenerated model
@@ -385,14 +394,20 @@ def main(chk: core.Check, replay: typing.Optional[str] = None) -> int:
         return chk.finish()
     # what the template scanner sees in this tree: the key-set fingerprint symbol per language (None = not present)
     ks_sym: typing.Dict[str, typing.Optional[str]] = {'c': None, 'cpp': None}
+    unless_omit: typing.Dict[str, bool] = {'c': False, 'cpp': False}   # guard_requires_support_header, per language
+    path_raw: typing.Dict[str, bool] = {'c': False, 'cpp': False}      # the messages interpolate the DSDL path unescaped
     try:
         for L_ in ('c', 'cpp'):
             sides = [gen_c17.scan_loop(L_, kd, _gen.read_repo(gen_c17.TEMPLATES[(L_, kd)])) for kd in ('support', 'type')]
             if sides[0]['keyset'] and sides[0]['keyset'] == sides[1]['keyset']:
                 ks_sym[L_] = sides[0]['keyset']
+            unless_omit[L_] = bool(sides[1]['unless_omit'])
+            path_raw[L_] = any(e in gen_c17.RAW_PATH_EXPRS for e in sides[1]['msg_exprs'])
     except Exception:
         pass   # the translator already failed closed on this; reported through `broken`
     chk.coverage['keyset_fingerprint_in_templates'] = {k: bool(v) for k, v in ks_sym.items()}
+    chk.coverage['guard_requires_support_header'] = dict(unless_omit)
+    chk.coverage['message_path_escaped'] = {k: not v for k, v in path_raw.items()}
     chk.coverage['main_theorems'] = ['C17_main_c', 'C17_main_cpp']   # unconditional; they stop compiling if a template loses the fingerprint
     try:
         chk.coverage['entry_templates'] = {L_: [list(e) for e in gen_c17.entry_templates(L_)] for L_ in ('c', 'cpp')}
@@ -414,7 +429,11 @@ def main(chk: core.Check, replay: typing.Optional[str] = None) -> int:
                 if mloc:
                     local_headers[mloc.group(1)] = '#pragma once\n#include <vector>\n#include <memory>\n#if __cplusplus >= 201703L\n#include <memory_resource>\n#endif\n'
     job = {'scratch': scratch, 'dsdl': DSDL, 'root': 'demo', 'jobs': 6, 'keyset': ks_sym, 'local_headers': local_headers,
-           'sets': [{k: s[k] for k in ('id', 'lang', 'cli', 'overrides', 'omit')} for s in sets], 'pairs': []}
+           'sets': [dict({k: s[k] for k in ('id', 'lang', 'cli', 'overrides', 'omit')}, hostile=bool(s.get('hostile')),
+                         standalone=s['kind'].startswith('base') or s['kind'] == 'omit',
+                         std=('c11' if s['lang'] == 'c' else 'c++%d' % max([14] + [STD_RANK.get(s['intended'].get('std'), 14)]
+                              + [17 for v in s['intended'].values() if isinstance(v, str) and ('pmr' in v or 'memory_resource' in v)])))
+                    for s in sets], 'pairs': []}
     set_by_id = {s['id']: s for s in sets}
     for p in pairs:
         lang = p['lang']
@@ -462,13 +481,15 @@ def main(chk: core.Check, replay: typing.Optional[str] = None) -> int:
              'failing_assertions_total': 0, 'options_exercised': {}}
     eff: typing.Dict[str, typing.Optional[list]] = {}
     gen_problems = []
+    plumbing: typing.List[dict] = []
+    alone_bad: typing.List[dict] = []
     for s in sets:
         r = impl['sets'].get(s['id'])
         if not r or not r['ok']:
             stats['sets_failed_generation'] += 1
             eff[s['id']] = None
-            if s['kind'].startswith('base') or s['kind'] == 'omit':
-                gen_problems.append({'set': s, 'log': (r or {}).get('log', 'no result')})
+            # every planned set is built from documented values that pass the generator's own validation rule
+            gen_problems.append({'set': s, 'log': (r or {}).get('log', 'no result')})
             continue
         stats['sets_generated'] += 1
         heads = sorted(r['typ_options'])
@@ -477,6 +498,15 @@ def main(chk: core.Check, replay: typing.Optional[str] = None) -> int:
         for h in heads:
             if decode_options(s['lang'], facts, r['typ_options'][h]) != o:
                 gen_problems.append({'set': s, 'log': 'option comment of %s differs from the support header of the same run' % h})
+        # the options the generator reports must be the options that were asked for (CLI flags / --configuration file)
+        if dict(o) != s['intended'] or len(o) != len(s['intended']):
+            plumbing.append({'set': {k: s[k] for k in ('id', 'lang', 'cli', 'overrides', 'kind')},
+                             'asked_for': s['intended'], 'generator_reports': o,
+                             'differs_on': sorted(k for k in set(dict(o)) | set(s['intended']) if dict(o).get(k, '<absent>') != s['intended'].get(k, '<absent>'))})
+        for h, (rc_, log_) in (r.get('standalone') or {}).items():
+            stats['standalone_compiles'] = stats.get('standalone_compiles', 0) + 1
+            if rc_ != 0:
+                alone_bad.append({'set': {k: s[k] for k in ('id', 'lang', 'cli', 'kind')}, 'header': h, 'compiler': log_})
 
     # 3. model queries
     queries: typing.List[str] = []
@@ -550,9 +580,8 @@ def main(chk: core.Check, replay: typing.Optional[str] = None) -> int:
                 want_l = [[ks_sym[L], kf[2] if kf and kf[0] == 1 else None]] + want_l
             for h, a in r['asserts'].items():
                 stats['header_number_tables_compared'] += 1
-                if s['omit'] and L == 'cpp' and not a:
-                    continue
-                if want_l != [[x[0], x[1]] for x in a]:
+                exp_l = [] if (s['omit'] and unless_omit[L]) else want_l   # pod headers assert nothing when the guard requires a support header
+                if exp_l != [[x[0], x[1]] for x in a]:
                     bad_model.append({'what': 'numbers asserted by type header %s' % h, 'set': s, 'options': o, 'model': want_l, 'implementation': a})
 
     # 3b. known finding probe: an option key on one side only
@@ -566,6 +595,17 @@ def main(chk: core.Check, replay: typing.Optional[str] = None) -> int:
                 kf_live = True
         if kf_live:
             chk.report_known(FINDING)
+
+    # 3b'. known finding probe: hostile DSDL path + --embed-auditing-info, identical option sets
+    kfp_live = {'c': False, 'cpp': False}
+    for p in pairs:
+        if p['kind'] == 'identical-hostile-path' and p['id'] in impl['pairs']:
+            r = impl['pairs'][p['id']]
+            if r['rc'] != 0 and (r.get('guard_region_errors') or r.get('control_rc') == 0):
+                kfp_live[p['lang']] = True
+    if chk.is_known(FINDING_PATH) and any(kfp_live.values()):
+        chk.report_known(FINDING_PATH)
+    hostile_ids = {s['id'] for s in sets if s.get('hostile')}
 
     # 3c. compile verdicts
     distinct = set()
@@ -618,13 +658,17 @@ def main(chk: core.Check, replay: typing.Optional[str] = None) -> int:
         if len(samples) < 8 and (len(samples) % 2 == 0) == guard_silent:
             samples.append({'lang': L, 'support_options': os_, 'type_options': ot_, 'compiler': ('gcc' if L == 'c' else 'g++') + ' -std=' + p['std'],
                             'exit_status': r['rc'], 'failing_assertions': got_failed, 'undeclared': got_undecl})
+        if (p['sup'] in hostile_ids or p['typ'] in hostile_ids) and kfp_live[L] and chk.is_known(FINDING_PATH) and path_raw[L]:
+            # instance of F-OPTGUARD-MSG-PATH: trigger holds (hostile path, auditing info, raw path in the message) and the witness reproduces
+            stats['known_finding_instances'] += 1
+            continue
         # -- property oracle (falsifier)
         want = property_oracle(os_, ot_)
         case = {'pair': p, 'sets': [s for s in sets if s['id'] in (p['sup'], p['typ'])], 'support_options': os_, 'type_options': ot_,
                 'exit_status': r['rc'], 'failing_assertions': got_failed, 'undeclared': got_undecl, 'compiler_output_tail': r['tail']}
         viol = None
         if want == 'accept':
-            if not guard_silent and not (os_ is None and L == 'c'):
+            if not guard_silent and not (os_ is None and not unless_omit[L]):
                 viol = 'identical option sets but the guard fired'
             elif p.get('must_build') and r['rc'] != 0:
                 viol = 'identical default option sets do not build'
@@ -720,9 +764,28 @@ def main(chk: core.Check, replay: typing.Optional[str] = None) -> int:
         chk.notes.append('%d identical pairs did not build for reasons unrelated to the guard (e.g. uses-leading-allocator with std::vector); '
                          'the guard was silent on them as predicted' % stats['identical_pairs_not_building_for_other_reasons'])
 
+    # coverage floor: every documented option with an alternative value that can be compiled must have been exercised by a
+    # differing pair, and there must be a minimum of non-trivial pairs per language
+    floor_bad = []
+    for L_ in ('c', 'cpp'):
+        for k, vs in facts['domain'][L_]:
+            alts = [v for v in vs if not needs_cetl([v])]
+            if len(alts) >= 2 and not stats['options_exercised'].get(L_ + '.' + k):
+                floor_bad.append('%s.%s never differed in a compiled pair' % (L_, k))
+        if stats['by_language'][L_] < 20 and not replay:
+            floor_bad.append('%s: only %d compiled pairs' % (L_, stats['by_language'][L_]))
     if gen_problems:
-        chk.violation({'what': 'nnvg failed on a base configuration or rendered inconsistent option comments', 'problems': gen_problems[:3], 'broken': broken},
-                      found_input=False)
+        chk.violation({'what': 'nnvg failed on a planned configuration or rendered inconsistent option comments', 'problems': gen_problems[:3], 'broken': broken},
+                      found_input=bool(gen_problems and 'set' in gen_problems[0]))
+    elif plumbing:
+        chk.violation({'what': 'the generator does not report the option set it was asked for (an option given on the command line / in the '
+                               'configuration file does not reach the generated code, or an unrequested one does)', 'case': plumbing[0],
+                       'n_failing': len(plumbing), 'dsdl': DSDL, 'broken': broken}, found_input=True)
+    elif alone_bad:
+        chk.violation({'what': 'a header generated with the default options does not compile on its own (nothing pre-included)', 'case': alone_bad[0],
+                       'n_failing': len(alone_bad), 'dsdl': DSDL, 'broken': broken}, found_input=True)
+    elif floor_bad and not replay:
+        chk.violation({'what': 'coverage floor not reached: ' + '; '.join(floor_bad[:5]), 'broken': broken}, found_input=False)
     elif bad_oracle:
         c = min(bad_oracle, key=lambda c: sum(1 for k in set(dict(c['support_options'] or [])) | set(dict(c['type_options']))
                                                 if dict(c['support_options'] or []).get(k) != dict(c['type_options']).get(k)))
